@@ -111,6 +111,7 @@ type Interp struct {
 	setupCells           map[*Cell]bool
 	setupMaps            map[*Map]bool
 	self                 *selfState // translator validation (selftest.go)
+	castRaised, castSeen int        // mis-typed variant accesses raised / reported to the harness by sv.Outcome
 }
 
 func newInterp(prog *ssa.Program, cfg *Config) *Interp {
@@ -153,6 +154,7 @@ func (in *Interp) resetPath() {
 	in.fixedLog = nil
 	in.byteDom = map[string]*[4]uint64{}
 	in.entangled = map[string]bool{}
+	in.castRaised, in.castSeen = 0, 0
 }
 
 func isRepoPkgPath(p string) bool {
@@ -335,6 +337,7 @@ func (in *Interp) where() string {
 func (in *Interp) castEvent(what string) {
 	msg := "type-confused " + what + " at " + in.where()
 	in.events = append(in.events, "cast: "+msg)
+	in.castRaised++
 	panic(&GoPanic{rt: msg, class: "cast"})
 }
 
@@ -359,6 +362,8 @@ func (in *Interp) callValue(caller *Frame, fnv Value, args []Value) Value {
 
 const maxDepth = 60000
 
+type fatalStack struct{}
+
 func (in *Interp) callFn(caller *Frame, fn *ssa.Function, args []Value, env []Value) (result Value) {
 	fi := in.info(fn)
 	if !fi.interpret {
@@ -379,7 +384,15 @@ func (in *Interp) callFn(caller *Frame, fn *ssa.Function, args []Value, env []Va
 	in.funcsRun[fn]++
 	in.depth++
 	if in.depth > maxDepth {
-		panic(pathAbort{"unwound: call depth > " + fmt.Sprint(maxDepth)})
+		// Natively this much recursion ends in "fatal error: stack overflow":
+		// the process dies, no recover() of the code under test runs. The
+		// engine models that: fatalStack unwinds every interpreted frame
+		// without running its deferred calls and is seen only by sv.Outcome
+		// (class "fatal:stack-overflow") or, failing that, ends the path as a
+		// violation. Whether the native stack really overflows at the depth
+		// the engine stops at is settled by the native replay.
+		in.events = append(in.events, "fatal: call depth > "+fmt.Sprint(maxDepth)+" (stack overflow) at "+in.where())
+		panic(fatalStack{})
 	}
 	fr := &Frame{fn: fn, info: fi, regs: make([]Value, fi.n), caller: caller}
 	if len(args) != len(fn.Params) {
